@@ -239,9 +239,6 @@ type overlappingFieldsCanBeMergedManager struct {
 	// per walker
 	comparedFragmentPairs pairSet
 	// cachedFieldsAndFragmentNames interface{}
-
-	// per selectionSet
-	comparedFragments map[string]bool
 }
 
 func (m *overlappingFieldsCanBeMergedManager) findConflictsWithinSelectionSet(selectionSet ast.SelectionSet) []*ConflictMessage {
@@ -257,11 +254,15 @@ func (m *overlappingFieldsCanBeMergedManager) findConflictsWithinSelectionSet(se
 	// Note: this is the *only place* `collectConflictsWithin` is called.
 	m.collectConflictsWithin(&conflicts, fieldsMap)
 
-	m.comparedFragments = make(map[string]bool)
+	// The set of fragments already compared with fieldsMap belongs to this one
+	// comparison. It must not be shared with the comparisons of sub selection sets
+	// that are started from within it, or they reset each other and a fragment cycle
+	// is followed forever.
+	comparedFragments := make(map[string]bool)
 	for idx, fragmentSpreadA := range fragmentSpreads {
 		// (B) Then collect conflicts between these fieldMap and those represented by
 		// each spread fragment name found.
-		m.collectConflictsBetweenFieldsAndFragment(&conflicts, false, fieldsMap, fragmentSpreadA)
+		m.collectConflictsBetweenFieldsAndFragment(&conflicts, comparedFragments, false, fieldsMap, fragmentSpreadA)
 
 		for _, fragmentSpreadB := range fragmentSpreads[idx+1:] {
 			// (C) Then compare this fragment with all other fragments found in this
@@ -275,11 +276,11 @@ func (m *overlappingFieldsCanBeMergedManager) findConflictsWithinSelectionSet(se
 	return conflicts.Conflicts
 }
 
-func (m *overlappingFieldsCanBeMergedManager) collectConflictsBetweenFieldsAndFragment(conflicts *conflictMessageContainer, areMutuallyExclusive bool, fieldsMap *sequentialFieldsMap, fragmentSpread *ast.FragmentSpread) {
-	if m.comparedFragments[fragmentSpread.Name] {
+func (m *overlappingFieldsCanBeMergedManager) collectConflictsBetweenFieldsAndFragment(conflicts *conflictMessageContainer, comparedFragments map[string]bool, areMutuallyExclusive bool, fieldsMap *sequentialFieldsMap, fragmentSpread *ast.FragmentSpread) {
+	if comparedFragments[fragmentSpread.Name] {
 		return
 	}
-	m.comparedFragments[fragmentSpread.Name] = true
+	comparedFragments[fragmentSpread.Name] = true
 
 	if fragmentSpread.Definition == nil {
 		return
@@ -303,7 +304,7 @@ func (m *overlappingFieldsCanBeMergedManager) collectConflictsBetweenFieldsAndFr
 		if fragmentSpread.Name == baseFragmentSpread.Name {
 			continue
 		}
-		m.collectConflictsBetweenFieldsAndFragment(conflicts, areMutuallyExclusive, fieldsMap, fragmentSpread)
+		m.collectConflictsBetweenFieldsAndFragment(conflicts, comparedFragments, areMutuallyExclusive, fieldsMap, fragmentSpread)
 	}
 }
 
@@ -360,15 +361,15 @@ func (m *overlappingFieldsCanBeMergedManager) findConflictsBetweenSubSelectionSe
 	// (I) Then collect conflicts between the first collection of fields and
 	// those referenced by each fragment name associated with the second.
 	for _, fragmentSpread := range fragmentSpreadsB {
-		m.comparedFragments = make(map[string]bool)
-		m.collectConflictsBetweenFieldsAndFragment(&conflicts, areMutuallyExclusive, fieldsMapA, fragmentSpread)
+		comparedFragments := make(map[string]bool)
+		m.collectConflictsBetweenFieldsAndFragment(&conflicts, comparedFragments, areMutuallyExclusive, fieldsMapA, fragmentSpread)
 	}
 
 	// (I) Then collect conflicts between the second collection of fields and
 	// those referenced by each fragment name associated with the first.
 	for _, fragmentSpread := range fragmentSpreadsA {
-		m.comparedFragments = make(map[string]bool)
-		m.collectConflictsBetweenFieldsAndFragment(&conflicts, areMutuallyExclusive, fieldsMapB, fragmentSpread)
+		comparedFragments := make(map[string]bool)
+		m.collectConflictsBetweenFieldsAndFragment(&conflicts, comparedFragments, areMutuallyExclusive, fieldsMapB, fragmentSpread)
 	}
 
 	// (J) Also collect conflicts between any fragment names by the first and
